@@ -55,6 +55,8 @@ def apply_step(obj, st, via):
                                                    add_knot_list=[float(fr(x)) for x in st["add"]], density=st["dens"])
         obj.set_ctrlpts(new_cpts)
         obj.knotvector = new_kv
+    elif a == "shrink_ctrlpts":
+        obj.ctrlpts = [[float(x) for x in frv(p)] for p in st["P"]]
     elif a == "set_ctrlpts":
         obj.ctrlpts = [[float(x) for x in frv(p)] for p in st["P"]]
     elif a in ("set_weights", "scale_weights"):
